@@ -800,7 +800,8 @@ def remap_by_types(
             elif isinstance(t_node.func, ast.Subscript):
                 if isinstance(t_node.func.value, ast.Attribute):
                     found_type = self.lookup_type(t_node.func.value.value)
-                    if found_type is not None:
+                    # Only an object of known type can have a parameterized property
+                    if found_type is not None and found_type is not Any:
                         t_node = self.process_parameterized_method_call(
                             t_node,
                             found_type,
